@@ -126,25 +126,34 @@ func runProperty(ctx *Ctx, o *Options, t0 time.Time) int {
 		solver.cacheDir = filepath.Join(o.Verif, ".cache", "smt")
 	}
 	// 1. generate obligations (functions in parallel)
-	results := make([]*funcResult, len(keys))
+	var tasks []vtask
+	for _, key := range keys {
+		tasks = append(tasks, ctx.expandKey(key, sp.Funcs[key])...)
+	}
+	results := make([]*funcResult, len(tasks))
 	var wg sync.WaitGroup
 	sem := make(chan struct{}, 8)
-	for i, key := range keys {
+	for i, t := range tasks {
 		wg.Add(1)
-		go func(i int, key string) {
+		go func(i int, t vtask) {
 			defer wg.Done()
 			sem <- struct{}{}
 			defer func() { <-sem }()
-			fr := &funcResult{key: key}
+			fr := &funcResult{key: t.key}
+			if t.nameAs != "" {
+				fr.key = t.nameAs
+			}
 			results[i] = fr
-			fn := ctx.findFunc(key)
-			if fn == nil {
-				fr.skip = "contract-binding: function " + key + " not found in the source"
+			if t.skip != "" {
+				fr.skip = t.skip
 				return
 			}
-			ex := VerifyFunc(ctx, fn, sp.Funcs[key], true, true)
+			ex := VerifyFuncAs(ctx, t.fn, t.fc, true, true, t.nameAs)
+			for _, n := range t.notes {
+				ex.assumed[n] = true
+			}
 			fr.ex = ex
-		}(i, key)
+		}(i, t)
 	}
 	wg.Wait()
 	var all []*Obligation
